@@ -71,6 +71,12 @@ fn main() {
             c18::child(seed, n);
             runq::cleanup_tmp();
         }
+        "c18now" => {
+            let seed: u64 = args.get(2).and_then(|s| s.parse().ok()).unwrap_or(1);
+            let n: usize = args.get(3).and_then(|s| s.parse().ok()).unwrap_or(10);
+            c18::now_child(seed, n);
+            runq::cleanup_tmp();
+        }
         "c14long" => {
             if args.get(2).map(|s| s.as_str()) == Some("chain") {
                 // harness c14long chain <kind> <n> <parse|exec>: an operator chain without brackets (finding D75)
